@@ -7,7 +7,7 @@ import tempfile
 from vlib import common, tengine
 
 
-def build_batch(programs, cmd="lang", tables=(), langs="python", ext=".py", timeout=1800):
+def build_batch(programs, cmd="lang", tables=(), langs="python", ext=".py", timeout=1800, settings_files=None):
     """Runs lian on all programs (one file each).  Returns (batch dict, run info).  Attaches per program: rows (GIR) and the
     requested extra tables filtered to the program's unit."""
     files = {}
@@ -16,19 +16,22 @@ def build_batch(programs, cmd="lang", tables=(), langs="python", ext=".py", time
         text = p.get("file_src", p["src"])
         p["hash"] = hashlib.sha256(text.encode()).hexdigest()[:10]
         files[p["file"]] = text
-    run = tengine.run_lian(files, cmd=cmd, langs=langs, timeout=timeout)
+    run = tengine.run_lian(files, cmd=cmd, langs=langs, timeout=timeout, settings_files=settings_files)
     info = dict(rc=run.rc, wall_s=round(run.wall, 1), log_tail=run.log[-1500:], cmd=cmd)
     try:
         units = run.units()
         gir = run.gir()
-        extra = {t: run.table(pat) for t, pat in tables}
+        extra = {t: (run.taint_flows() if pat == "@taint_flows" else run.table(pat)) for t, pat in tables}
         for p in programs:
             uid = units.get("in/" + p["file"])
             p["unit_id"] = uid
             p["rows"] = tengine.jsonable_rows(gir.get(uid, [])) if uid is not None else []
             ids = {r["stmt_id"] for r in p["rows"]}
             for t in extra:
-                if t == "callpaths":
+                if t == "flows":
+                    p[t] = [dict(source_stmt_id=int(r["source_stmt_id"]), sink_stmt_id=int(r["sink_stmt_id"]))
+                            for r in extra[t] if int(r["source_stmt_id"]) in ids or int(r["sink_stmt_id"]) in ids]
+                elif t == "callpaths":
                     keep = []
                     for r in extra[t]:
                         path = r.get("call_path")
